@@ -130,6 +130,36 @@ Eval vm_compute in (match find_diff dfa_%(t)s %(rule)s with
         f.write(src)
     return p
 
+def prove_all(cdir, types, coq_samples, reuse=False):
+    """one coqc per type; with reuse=True a result of this very tree (same generated table) is taken from the cache"""
+    g = os.path.join(cdir, 'gen')
+    def prove(t):
+        p = gen_v(cdir, t, coq_samples[t])
+        outp = p[:-2] + '.out'
+        if reuse and os.path.exists(outp) and os.path.exists(p[:-2] + '.vo'):
+            d = json.load(open(outp))
+            if d.get('src') == open(p).read():
+                return t, d['rc'], d['o'], d['e'], 0.0
+        t0 = time.time()
+        rc, o, e = coqc(p, [(g, 'G')], timeout=1200)
+        json.dump({'rc': rc, 'o': o, 'e': e, 'src': open(p).read()}, open(outp, 'w'))
+        return t, rc, o, e, time.time() - t0
+    with ThreadPoolExecutor(max_workers=16) as ex:
+        return list(ex.map(prove, types))
+
+def ensure_gendfa(R, cdir):
+    g = os.path.join(cdir, 'gen')
+    os.makedirs(g, exist_ok=True)
+    with Lock('gen-' + os.path.basename(cdir)):
+        if not os.path.exists(os.path.join(g, 'GenDfa.vo')):
+            import shutil
+            shutil.copy(os.path.join(cdir, 'GenDfa.v'), os.path.join(g, 'GenDfa.v'))
+            rc, o, e = coqc(os.path.join(g, 'GenDfa.v'), [(g, 'G')])
+            if rc != 0:
+                R.violation({'kind': 'GenDfa.v does not compile', 'log': (o + e)[-3000:]}, no_input=True)
+                return False
+    return True
+
 def parse_nlist(text):
     """first `= [...]` list of numbers printed by Eval"""
     m = re.search(r'=\s*\[(.*?)\]', text, flags=re.S)
@@ -189,13 +219,7 @@ def main():
                 ws.append(tk)
         coq_samples[t] = ws[:n_coq]
     # --- theorems, one coqc per type, in parallel
-    def prove(t):
-        p = gen_v(cdir, t, coq_samples[t])
-        t0 = time.time()
-        rc, o, e = coqc(p, [(g, 'G')], timeout=1200)
-        return t, rc, o, e, time.time() - t0
-    with ThreadPoolExecutor(max_workers=16) as ex:
-        results = list(ex.map(prove, types))
+    results = prove_all(cdir, types, coq_samples)
     R.cov['obligations'] = len(RULES)
     proved = []
     per_type = {}
